@@ -177,22 +177,53 @@ def run(rep):
            f"iter_all_entries must yield non-configurables then configurables (found {order})")
 
     # ---- R3 -------------------------------------------------------------------------------------------------------------
-    gdw = tab.fn(t, "get_data_word")
-    gms = tab.matches_in(gdw["body"])
-    ok3 = False
-    detail = "no match on data_id.kind"
-    for m in gms:
-        arms = tab.arms_by_variant(m)
-        if "Configurable" in arms:
-            body = arms["Configurable"][0][0]["body"]
-            shared = any(len(set(v for v, _ in tab.pat_variants(a["pat"]))) > 1 for a in m["arms"] if any(tab.last_seg(v) == "Configurable" for v, _ in tab.pat_variants(a["pat"])))
-            is_none = body.get("k") == "Path" and body["path"] == "None" or (body.get("k") == "Return" and "None" in str(body)) or \
-                (body.get("k") == "Block" and "None" in str(body) and not any(x.get("member") == "configurables" for x in tab.find(body, "Field")))
-            ok3 = is_none and not shared
-            detail = f"Configurable arm answers from the table: {not is_none}"
-    rep.ob("R3-configurable-default-is-not-a-constant", "DataSection::get_data_word", ok3, DS, gdw.get("l", 0),
-           "get_data_word feeds the asm optimizers' known-constant tables (const_indexing_aggregates_function, constant_propagate): for a Configurable "
-           f"id it must return None ({detail}); otherwise the default is folded into the code and a patched value is not observed")
+    # The asm optimizers treat `LoadDataId(reg, id)` of a word entry as a known constant (DataSection::get_data_word). That is
+    # sound only while no LoadDataId ever names a Configurable entry. Decide it by who builds what:
+    #  (a) EntryName::Configurable is constructed only in compile_configurable and initialise_constant;
+    #  (b) every caller of initialise_constant passes `None` as the configurable name;
+    #  (c) the function that reads configurable_v0_data_id builds AddrDataId (an address), never LoadDataId.
+    FAB = "sway_core::asm_generation::fuel::fuel_asm_builder::FuelAsmBuilder::<'ir, 'eng>"
+    allowed = {"compile_configurable", "initialise_constant"}
+    n_cfg = 0
+    for f in F.fns.values():
+        if f.exp:
+            continue
+        for bi, si, st in f.stmts():
+            r = st["r"]
+            if r["k"] == "agg" and r.get("adt", "").endswith("data_section::EntryName") and r.get("var") == "Configurable":
+                n_cfg += 1
+                fam = f.name.split("::{closure")[0]
+                rep.ob("R3-configurable-entries-built-only-by", fam, fam.split("::")[-1] in allowed, f.file, st.get("ln", f.lo),
+                       "EntryName::Configurable is built outside compile_configurable / initialise_constant: a new path can hand a configurable's "
+                       "DataId to LoadDataId, whose value the asm optimizers take as a compile-time constant")
+    rep.floor("R3-configurable-entries-built-only-by", 3, n_cfg)
+    ic = [f for f in F.fns.values() if f.name.endswith("::initialise_constant") and f.kind != "closure"]
+    rep.ob("R3-anchor", "initialise_constant", len(ic) == 1, DS, 0, "FuelAsmBuilder::initialise_constant not found")
+    if len(ic) == 1:
+        callers = 0
+        for f in F.fns.values():
+            for bi, tt in f.calls():
+                if mir.callee_id(tt) == ic[0].id:
+                    callers += 1
+                    a = tt["a"][2] if len(tt["a"]) > 2 else {}
+                    v = panics.trace_value(f, a) if "l" in a else ("const", a)
+                    is_none = bool(v and ((v[0] == "const" and "None" in v[1].get("c", "")) or
+                                          (v[0] == "stmt" and v[1]["r"]["k"] == "agg" and v[1]["r"].get("var") == "None")))
+                    rep.ob("R3-constants-are-never-named-configurable", f.name.split("::{closure")[0], is_none, f.file, tt["ln"],
+                           "initialise_constant is called with a configurable name: it emits LoadDataId for the entry, and the asm optimizers fold the "
+                           "configurable's default into the code (a patched value is then not observed)")
+        rep.floor("R3-constants-are-never-named-configurable", 1, callers)
+    gc = [f for f in F.fns.values() if f.name.endswith("::compile_get_config") and f.kind != "closure" and "fuel_asm_builder" in f.name]
+    ok_gc = False
+    if len(gc) == 1:
+        kinds = {st["r"].get("var") for _, _, st in gc[0].stmts() if st["r"]["k"] == "agg" and st["r"].get("adt", "").endswith("virtual_ops::VirtualOp")}
+        ok_gc = "AddrDataId" in kinds and "LoadDataId" not in kinds
+    rep.ob("R3-v0-configurable-read-by-address", "compile_get_config", ok_gc, "sway-core/src/asm_generation/fuel/fuel_asm_builder.rs", gc[0].lo if gc else 0,
+           "compile_get_config must take the address of the configurable's data entry (AddrDataId) and load through memory; LoadDataId would let "
+           "the asm optimizers fold the default")
+    adv_gdw = tab.fn(t, "get_data_word")
+    rep.note("advisory: DataSection::get_data_word also answers for Configurable ids; this is unreachable while R3 holds (no LoadDataId names a "
+             "configurable entry)")
 
     # ---- R4 -------------------------------------------------------------------------------------------------------------
     it = tab.tree(INFO)
